@@ -1,7 +1,7 @@
 """C03 -- RPM, module and extra-file manifests survive a write/read cycle unchanged."""
 from pyvc import verify
 from bounded import roundtrip
-from .common import ctx, std, json_args_obligation
+from .common import ctx, std, json_args_obligation, history_samples
 
 KINDS = [("rpms", "Rpms"), ("modules", "Modules"), ("extra_files", "ExtraFiles")]
 
@@ -28,6 +28,7 @@ def check(run):
     for mod, cls in KINDS:
         roundtrip.roundtrip(run, c.mods, mod, n, "manifests built by 0-8 random valid add calls (several variants/arches, epochs != 0, dashed names, "
                             "null and mixed-case sigkeys, 2/3/4-part module UIDs in several categories, several checksum types); %d seeds" % n)
+    history_samples(run, c, ["io:common.MetadataBase.load"])
     run.assume("A1: json.dump(indent=4, sort_keys=True) is a function of the JSON value and json.load inverts it on str-keyed JSON values")
     run.note("history quantifier: the payload is stored and read back VERBATIM (same object), so the round trip of any manifest reduces to A1 "
              "on the entries filed by add, whose shape is the add postcondition")
